@@ -34,6 +34,7 @@ HasK(k) == UNCHANGED <<dict, nextId, cdict, hasc>> /\ hist' = Append(hist, <<"mh
 Commit(md, w) == Persist /\ cdict' = dict /\ hasc' = TRUE /\ UNCHANGED <<dict, nextId>> /\ hist' = Append(hist, <<"commit", md, w, 0>>)
 DropCache == Persist /\ UNCHANGED <<dict, nextId, cdict, hasc>> /\ hist' = Append(hist, <<"dropcache">>)
 Crash == Persist /\ hasc /\ dict' = cdict /\ UNCHANGED <<nextId, cdict, hasc>> /\ hist' = Append(hist, <<"crash">>)
+PopAll == Len(dict) > 0 /\ Len(hist) % 11 = 0 /\ dict' = <<>> /\ UNCHANGED <<nextId, cdict, hasc>> /\ hist' = Append(hist, <<"mpop">>)
 Present == {k \in Keys : HasKey(dict, k)}
 Growing == Len(hist) <= GrowUntil
 Shrinking == Len(hist) > ShrinkFrom
@@ -43,7 +44,7 @@ Next == \/ ~Shrinking /\ \E k \in Keys, v \in VSizes : SetK(k, v)
         \/ Shrinking /\ Present = {} /\ \E k \in Keys, v \in VSizes : SetK(k, v)   \* never deadlock before EmitDepth
         \/ ~Growing /\ \E k \in (IF Shrinking THEN Present ELSE Keys) : RemoveK(k)
         \/ ~Growing /\ ~Shrinking /\ \E k \in Keys : GetK(k) \/ HasK(k)
-NextP == Next \/ (\E md \in {"det", "nondet"}, w \in {1, 4} : Commit(md, w)) \/ DropCache \/ Crash
+NextP == Next \/ (~Growing /\ ~Shrinking /\ PopAll) \/ (\E md \in {"det", "nondet"}, w \in {1, 4} : Commit(md, w)) \/ DropCache \/ Crash
 Spec == Init /\ [][NextP]_wvars
 EmitWalk == (EmitDepth > 0 /\ Len(hist) = EmitDepth + 1) => PrintT(ToJson(hist))
 =============================================================================
